@@ -369,6 +369,13 @@ def match_known(kf, kind, detail):
 MATCHERS = {}
 
 
+def _shape_eq_kind(detail, kf):
+    return detail.get("shape") == kf.get("kind")
+
+
+MATCHERS["shape_eq_kind"] = _shape_eq_kind
+
+
 def matcher(name):
     def deco(f):
         MATCHERS[name] = f
